@@ -149,6 +149,16 @@ pub fn collections(_cex: &Value) -> Result<String, String> {
         }
       }
     }
+    // OneOrMany read from JSON is a fixpoint of its own serialisation (a one-element array included)
+    for text in ["1", "[1]", "[1,2]", "[]", "[7,7]"] {
+      if let Ok(m) = serde_json::from_str::<OneOrMany<u8>>(text) {
+        let out = serde_json::to_string(&m).unwrap();
+        match serde_json::from_str::<OneOrMany<u8>>(&out) {
+          Ok(back) if back == m => {}
+          _ => log.push(format!("[serde] OneOrMany read from {text} serialises as {out}, which does not read back to an equal value")),
+        }
+      }
+    }
     let mapped = OneOrSet::new_set(OrderedSet::try_from(vec![1u8, 2]).unwrap()).unwrap().map(|_| 7u8);
     if mapped.len() != 1 || serde_json::to_string(&mapped).unwrap().starts_with('[') {
       log.push("OneOrSet::map collapsing keys does not normalise to One".into());
